@@ -26,6 +26,8 @@ func init() {
 			"C25.R5 siblings: o() and validateOwnerPassword() derive the /O key from the same fields",
 			"C25.R6 error discipline: no discarded error in crypto.go",
 			"C25.R7 flow: the API stores a non-nil new-password pointer (nil means 'no change' to the writer)",
+			"C25.R8 siblings (= C22.R9): the user-side and the owner-side key derivation both cut and pad the password to 32 bytes",
+			"C25.R9 ownership: NewDefaultConfiguration hands out a copy of the loaded template, never the template (passwords are fields of the configuration)",
 			"C25.R3 MPT: new passwords installed before O/U derivation; EncKey writers",
 		},
 		Assumptions: []string{"the hash comparison helpers compare what they are given (value semantics not decided)"},
@@ -65,6 +67,10 @@ var c25Compares = map[string]bool{
 func runC25(c *Ctx) {
 	p, r := c.P, c.R
 	r.MinInst["C25.R7"] = 2
+	r.MinInst["C25.R8"] = 2
+	checkLegacyPasswordNormalised(c, "C25.R8")
+	r.MinInst["C25.R9"] = 1
+	checkDefaultConfigurationCopied(c)
 	checkPasswordChangeRequested(c)
 	r.MinInst["C25.R1"] = 8
 	r.MinInst["C25.R2"] = 3
@@ -804,4 +810,48 @@ func revisionNotAES256(blk *ssa.BasicBlock) bool {
 		}
 	})
 	return got[5] && got[6]
+}
+
+// ---------------- C25.R9 (round 4 seed C25-H): configurations are copies of the template ----------------
+
+// checkDefaultConfigurationCopied: passwords travel in the Configuration (UserPW, OwnerPW and the new-password
+// pointers). model.NewDefaultConfiguration is where every configuration starts; it must hand out a copy of the
+// package-level template loadedDefaultConfig (a pointer to a local, or another constructor's result), never the
+// template itself: otherwise the passwords one operation stores are inherited by every configuration made later in
+// the process, and an operation without a password is authorised by someone else's.
+func checkDefaultConfigurationCopied(c *Ctx) {
+	p, r := c.P, c.R
+	const fid = "pkg/pdfcpu/model.NewDefaultConfiguration"
+	fn := p.Func(fid)
+	if fn == nil {
+		r.Bad("C25.R9", fid, "anchor", "", "UNRESOLVED-ANCHOR")
+		return
+	}
+	n := 0
+	for _, ret := range returnsOf(fn) {
+		if len(ret.Results) != 1 {
+			continue
+		}
+		n++
+		construct := fmt.Sprintf("return#%d", n)
+		shared := ""
+		for _, l := range valueLeaves(ret.Results[0]) {
+			if ld, ok := l.(*ssa.UnOp); ok && ld.Op == token.MUL {
+				if g, ok := ld.X.(*ssa.Global); ok {
+					shared = g.Name()
+				}
+			}
+			if g, ok := l.(*ssa.Global); ok {
+				shared = g.Name()
+			}
+		}
+		if shared != "" {
+			r.Bad("C25.R9", fid, construct, posOrFn(p, ret, fn), "the package-level template "+shared+" itself is handed out as a new configuration: passwords stored into it by one operation are inherited by every configuration created afterwards, so a later operation without (or with a wrong) password is authorised")
+		} else {
+			r.OK("C25.R9", fid, construct, posOrFn(p, ret, fn), "a fresh value (copy of the template or a constructor's result)", true)
+		}
+	}
+	if n == 0 {
+		r.Bad("C25.R9", fid, "returns", p.Pos(fn.Pos()), "UNDECIDED: no return with one result")
+	}
 }
